@@ -130,6 +130,32 @@ Section Activation.
       + constructor; [|constructor]. cbn [Q]. intros q Pq. now apply (root_par p WF) in Pq.
       + intros x [].
   Qed.
+
+  (* the same over runs in which further updates that touch neither started nor activated flags nor the interrupt map are
+     applied between the ticks (cancel / force requests, proofs/C12_runs.v) *)
+  Theorem activation_always_upd (upd : Type) (apply : S -> upd -> S) :
+    (forall s u m, activated (st (apply s u) m) = activated (st s m)) ->
+    (forall s u m, started (st (apply s u) m) = started (st s m)) ->
+    (forall s u, ints (apply s u) = ints s) ->
+    forall ts, Forall T (gstates p upd apply [FVisit 0] (init p) 0 ts).
+  Proof.
+    intros Ea Es Ei ts. apply (grun_G p Q T R R_refl R_trans Q_stable step_G).
+    - intros s n. apply same_R. apply activated_fail.
+    - intros s n. apply same_T; [apply activated_fail|apply started_fail].
+    - intros s i sr. now apply same_R.
+    - intros s i sr. now apply same_T.
+    - intros s n. apply same_R. apply activated_cmd.
+    - intros s n. apply same_T; [apply activated_cmd|apply started_cmd].
+    - intros s. now apply same_R.
+    - intros s. now apply same_T.
+    - intros s u. apply same_R. apply Ea.
+    - intros s u. apply same_T; [apply Ea|apply Es].
+    - intros s u _ O. apply (stacks_stable Q R Q_stable s); [apply same_R; apply Ea|apply Ei|exact O].
+    - split; [|split].
+      + intros c q _ _ Sc. now rewrite init_started in Sc.
+      + constructor; [|constructor]. cbn [Q]. intros q Pq. now apply (root_par p WF) in Pq.
+      + intros x [].
+  Qed.
 End Activation.
 
 Theorem watch_body_runs_only_after_activation p ts : wf_b p = true ->
